@@ -783,6 +783,21 @@ func runC07(p *core.Prog, r *core.Report, tier string) {
 				return
 			}
 			nTally++
+			// judged: collections that hold what responses said (keyed by a root/hash, or holding responses), and any
+			// collection that is wiped per request; a counter or cache with other contents is C17's business
+			aboutResponses := false
+			if mt, ok := m.Type().Underlying().(*types.Map); ok {
+				ks, vs := mt.Key().String(), mt.Elem().String()
+				aboutResponses = strings.HasSuffix(ks, "phase0.Root") || strings.HasSuffix(ks, "phase0.Hash32") || strings.Contains(strings.ToLower(vs), "resp")
+			}
+			if c, ok := in.(*ssa.Call); ok {
+				if b, ok := c.Call.Value.(*ssa.Builtin); ok && b.Name() == "clear" {
+					aboutResponses = true
+				}
+			}
+			if !aboutResponses {
+				return
+			}
 			if field, shared := fromService(m); shared {
 				nShared++
 				r.Violate("C07.o", fmt.Sprintf("%s|tally-in-service|%s#%d", core.FnKey(f), field, nShared), p.Pos(in.Pos()), "a collection written while responses are counted ("+field+") is held in the service and so shared by overlapping requests: one request's tally is cleared or polluted by another's, and the root returned can be one no node reported for the block asked about")
